@@ -167,6 +167,16 @@ def ZoneValid (z : Zone) : Prop :=
   z.types ≠ [] ∧ SortedStrict z.transitions ∧ (∀ t ∈ z.transitions, t.idx < z.types.length)
     ∧ (∀ t ∈ z.types, t.off ≠ I32_MIN ∧ ∀ n, t.name = some n → NameOk n)
 
+/-! ### the layout a header announces -/
+/-- the `k`-th 32-bit count of the header at the start of `bytes` (RFC 8536 order: `isutcnt`,
+`isstdcnt`, `leapcnt`, `timecnt`, `typecnt`, `charcnt`), big-endian -/
+def hdrCount (bytes : List Nat) (k : Nat) : Nat := beNat ((bytes.drop (20 + 4 * k)).take 4)
+
+/-- length of the header plus the data block its six counts announce, with `ts`-byte times -/
+def announcedLen (ts : Nat) (bytes : List Nat) : Nat :=
+  44 + hdrCount bytes 3 * ts + hdrCount bytes 3 + hdrCount bytes 4 * 6 + hdrCount bytes 5
+    + hdrCount bytes 2 * (ts + 4) + hdrCount bytes 1 + hdrCount bytes 0
+
 /-- the footer bytes of a file as the reader slices it: everything after the second data block
 (empty for version 1 and for files whose blocks cannot be sliced) -/
 def footerOf (bytes : List Nat) : List Nat :=
